@@ -151,9 +151,15 @@ func LoadCorpus(repo string) (*Corpus, error) {
 					}
 					return l
 				}
+				// the first referenced document also has a row without percentage
+				if t0 := ls.A[0].Get("document").Get("tax"); t0 != nil && t0.Get("categories") != nil && len(t0.Get("categories").A) > 0 {
+					if rs := t0.Get("categories").A[0].Get("rates"); rs != nil && rs.K == 'a' {
+						rs.A = append(rs.A, &JV{K: 'o', M: []JM{{"key", JStr("exempt")}, {"base", JStr("200.00")}}})
+					}
+				}
 				ls.A = append(ls.A,
-					mk(1, `{"categories":[{"code":"VAT","rates":[{"base":"1000.00","percent":"21.0%","surcharge":{"percent":"5.2%"}}]}]}`),
-					mk(2, `{"categories":[{"code":"VAT","rates":[{"base":"500.00","percent":"10.0%"},{"base":"200.00","percent":"21.0%"}]},{"code":"IRPF","retained":true,"rates":[{"base":"700.00","percent":"15.0%"}]}]}`))
+					mk(1, `{"categories":[{"code":"VAT","rates":[{"base":"1000.00","percent":"21.0%","surcharge":{"percent":"5.2%"}},{"key":"exempt","base":"50.00"}]}]}`),
+					mk(2, `{"categories":[{"code":"VAT","rates":[{"base":"500.00","percent":"10.0%"},{"base":"200.00","percent":"21.0%"},{"key":"exempt","base":"75.00"}]},{"code":"IRPF","retained":true,"rates":[{"base":"700.00","percent":"15.0%"}]}]}`))
 				d := &Doc{Name: "synthetic/es-payment-mixed-tax", Src: v.Encode(nil), IsEnv: base.IsEnv}
 				buildDoc(d, len(c.Docs))
 				c.Docs = append(c.Docs, d)
